@@ -17,14 +17,15 @@ import (
 // consecutive epoch headers, mix digest, uncle hash, gas fields, wrong number, unknown or rejected parent, duplicates,
 // early timestamp, base fee).
 type posaGen struct {
-	f      *posaFam
-	r      *hx.Run
-	rt     string
-	next   int
-	period uint64
-	tips   []string // labels of stored headers, in order of storage
-	pref   string   // "in": seal in turn when possible, "out": out of turn when possible, "": either
-	rej    []string // labels of rejected headers
+	f          *posaFam
+	r          *hx.Run
+	rt         string
+	next       int
+	period     uint64
+	tips       []string // labels of stored headers, in order of storage
+	pref       string   // "in": seal in turn when possible, "out": out of turn when possible, "": either
+	forceExtra string   // when set, the extra-data descriptor of the next valid header
+	rej        []string // labels of rejected headers
 }
 
 func (g *posaGen) label() string {
@@ -210,6 +211,9 @@ func (g *posaGen) run(long bool) {
 	}
 	if f := g.f; f.nodes[cur] != nil && f.nodes[cur].stored {
 		g.flips(cur)
+		if _, _, head, _, ok := f.canonLine(); ok {
+			g.handover(f.byHash[head])
+		}
 	}
 	g.do("junk")
 	g.do("state")
@@ -393,6 +397,9 @@ func (g *posaGen) step(tip *posaNode, mut string, epochEvery uint64) (string, st
 			r.Hist("gen.epoch-header")
 		}
 	}
+	if g.forceExtra != "" && mut == "valid" {
+		extra = g.forceExtra
+	}
 	if signer < 0 && mut != "outsider" && mut != "dup-stored" {
 		r.Hist("gen.no-eligible-signer")
 		// nobody can extend this tip validly; submit an outsider so that the dead end is still exercised
@@ -546,4 +553,101 @@ func (g *posaGen) step(tip *posaNode, mut string, epochEvery uint64) (string, st
 	}
 	op := fmt.Sprintf("hdr %s %s %d %s %s %d %s %d %d %d %s %s", id, parent, num, cb, seal, diff, extra, tm, gl, gu, flags, basefee)
 	return id, g.do(op)
+}
+
+// handover: an epoch header that changes the SIZE of the validator set (so that floor(|old|/2) != floor(|new|/2) where
+// possible), then at every height between the two candidate hand-over points (epoch+1 .. epoch+max(|old|,|new|)/2+1) two
+// probe headers on side branches: one sealed by a member of the old set that is not in the new set, one by a member of
+// the new set that is not in the old set, each with the difficulty that is right for its own set; exactly one of them
+// is valid at each height (the old set rules for floor(|old|/2) blocks on bsc / bytom, the new set at once elsewhere).
+func (g *posaGen) handover(from string) {
+	r, f := g.r, g.f
+	tip := f.nodes[g.grow(from, 8, "")]
+	if tip == nil || !tip.stored {
+		return
+	}
+	anc := append([]*posaNode{tip}, mustAnc(f, tip)...)
+	old := f.inEffect(tip.num+1, anc)
+	var oldIdx []int
+	inOld := map[int]bool{}
+	for _, a := range old {
+		k := idxOfAddr(a)
+		if k < 0 {
+			return
+		}
+		oldIdx = append(oldIdx, k)
+		inOld[k] = true
+	}
+	if len(oldIdx) < 2 {
+		return
+	}
+	// new size: one whose half differs from the old half
+	sizes := []int{3, 5, 4, 7, 2, 6}
+	nsz := sizes[r.Rng.Intn(len(sizes))]
+	for try := 0; try < 8 && (nsz/2 == len(oldIdx)/2); try++ {
+		nsz = sizes[r.Rng.Intn(len(sizes))]
+	}
+	var nw []int
+	for _, k := range r.Rng.Perm(posaPool) {
+		if !inOld[k] && len(nw) < nsz-1 {
+			nw = append(nw, k)
+		}
+	}
+	// one shared member, the rest fresh (filled up with old members when the pool is exhausted)
+	for _, k := range oldIdx {
+		if len(nw) < nsz {
+			nw = append(nw, k)
+		}
+	}
+	if len(nw) < 2 {
+		return
+	}
+	inNew := map[int]bool{}
+	for _, k := range nw {
+		inNew[k] = true
+	}
+	g.forceExtra = "32/" + valsTok(nw) + "/0/65"
+	eid := g.grow(tip.id, 1, "")
+	g.forceExtra = ""
+	if eid == tip.id {
+		return
+	}
+	r.Hist(fmt.Sprintf("gen.handover.%d-to-%d", len(oldIdx), len(nw)))
+	maxHalf := len(oldIdx) / 2
+	if len(nw)/2 > maxHalf {
+		maxHalf = len(nw) / 2
+	}
+	cur := eid
+	for j := 1; j <= maxHalf+1; j++ {
+		t := f.nodes[cur]
+		num := t.num + 1
+		lastSigners := map[ecommon.Address]bool{}
+		a2 := append([]*posaNode{t}, mustAnc(f, t)...)
+		for i := 0; i < 8 && i < len(a2); i++ {
+			lastSigners[a2[i].cb] = true
+		}
+		probe := func(set []int, other map[int]bool, tag string) {
+			for _, k := range set {
+				if other[k] || lastSigners[posaKeys[k].addr] {
+					continue
+				}
+				diff := 1
+				if set[int(num%uint64(len(set)))] == k {
+					diff = 2
+				}
+				op := fmt.Sprintf("hdr %s %s %d %d s%d %d 32/-/0/65 %d %d %d - -", g.label(), t.id, num, k, k, diff, t.time+g.period+1, t.gl, r.Rng.Intn(1000))
+				out := g.do(op)
+				r.Hist("handover." + tag + "." + strings.Fields(out)[0])
+				r.Nontrivial(fmt.Sprintf("%s/handover/%s/%d-%d/+%d/%s", g.rt, tag, len(oldIdx), len(nw), j, strings.Fields(out)[0]))
+				return
+			}
+		}
+		probe(oldIdx, inNew, "old-only")
+		probe(nw, inOld, "new-only")
+		nxt := g.grow(cur, 1, "")
+		if nxt == cur {
+			return
+		}
+		cur = nxt
+	}
 }
